@@ -10,10 +10,10 @@ SAME_CURSOR_BUT_POS = ['self.cursor.len == old_self.cursor.len', 'self.cursor.te
 
 
 def register(reg):
-    contract(reg, f'{T}:TextLinesCursor.goto', P + ['C09', 'C08'], {'self': 'Cursor', 'pos': 'int'}, ret='None', modifies=['self'],
+    contract(reg, f'{T}:TextLinesCursor.goto', P + ['C09', 'C08'], {'self': 'Cursor', 'pos': 'int'}, ret='None', modifies=['self'], wf=False,
              ensures=[('property', 'self.pos == max(0, min(self.len, pos))'),
                       'self.len == old_self.len', 'self.textstr == old_self.textstr', 'self.input == old_self.input', 'self._namechars == old_self._namechars'])
-    contract(reg, f'{T}:TextLinesCursor.clone', P, {'self': 'Cursor'}, ret='Cursor', verify=False,
+    contract(reg, f'{T}:TextLinesCursor.clone', P, {'self': 'Cursor'}, ret='Cursor', verify=False, wf=False,
              ensures=['result == self'], note='`type(self)(self.input, pos=self.pos)`: a cursor on the same text at the same position')
 
     # --- ParseState (a frame)
@@ -26,7 +26,6 @@ def register(reg):
                       'self.cursor == old_self.cursor', 'self.ast == old_self.ast', ('property', 'self.cutseen == old_self.cutseen'),
                       'self.alerts == old_self.alerts'])
     contract(reg, f'{F}:ParseState.merge', P, {'self': 'Frame', 'prev': 'Frame'}, ret='any', modifies=['self'],
-             requires=['prev.cursor.len == self.cursor.len', '0 <= prev.cursor.pos', 'prev.cursor.pos <= prev.cursor.len'],
              ensures=[('property', 'self == spec_merged(old_self, prev)'),
                       ('property', 'self.cutseen == old_self.cutseen')])
     contract(reg, f'{F}:ParseState.fold', P, {'self': 'Frame'}, ret='Val',
@@ -46,10 +45,9 @@ def register(reg):
              ensures=[('property', 'result == old_self.state_stack[-1]'),
                       ('property', 'self.state_stack == old_self.state_stack[:-1]')])
     contract(reg, f'{F}:ParseStateStack.pop', P, {'self': 'States{state_stack=stack[Frame,2]}'}, ret='Frame', modifies=['self.state_stack'],
-             requires=['len(self.state_stack) >= 2', 'self.state_stack[-1].cursor.len == self.state_stack[-2].cursor.len',
-                       '0 <= self.state_stack[-1].cursor.pos', 'self.state_stack[-1].cursor.pos <= self.state_stack[-1].cursor.len'],
+             requires=['len(self.state_stack) >= 2'],
              ensures=[('property', 'result == old_self.state_stack[-1]'),
-                      ('property', 'self.state_stack == old_self.state_stack[:-2] + [spec_at(old_self.state_stack[-2], old_self.state_stack[-1].cursor.pos)]')])
+                      ('property', 'self.state_stack == old_self.state_stack[:-2] + [spec_goto(old_self.state_stack[-2], old_self.state_stack[-1].cursor.pos)]')])
     fresh = ['len(self.state_stack) == len(old_self.state_stack) + 1',
              ('property', 'self.state_stack[:-1] == old_self.state_stack'),
              ('property', 'self.state_stack[-1].cursor == old_self.state_stack[-1].cursor'),
@@ -61,6 +59,5 @@ def register(reg):
     contract(reg, f'{F}:ParseStateStack.new', P, {'self': 'States'}, ret='any', modifies=['self.state_stack'],
              ensures=[('property', 'self.state_stack == old_self.state_stack + [spec_with_ast(spec_fresh(old_self.state_stack[-1]), AST())]')])
     contract(reg, f'{F}:ParseStateStack.merge', P, {'self': 'States{state_stack=stack[Frame,2]}'}, ret='any', modifies=['self.state_stack'],
-             requires=['len(self.state_stack) >= 2', 'self.state_stack[-1].cursor.len == self.state_stack[-2].cursor.len',
-                       '0 <= self.state_stack[-1].cursor.pos', 'self.state_stack[-1].cursor.pos <= self.state_stack[-1].cursor.len'],
+             requires=['len(self.state_stack) >= 2'],
              ensures=[('property', 'self.state_stack == old_self.state_stack[:-2] + [spec_merged(old_self.state_stack[-2], old_self.state_stack[-1])]')])
